@@ -124,22 +124,31 @@ type segment struct {
 	pos        string
 }
 
-// layoutCheck analyses fn for a single make([]byte, L) buffer and returns
-// whether the writes tile [0, L) exactly.
-func layoutCheck(p *core.Prog, fn *ssa.Function) (ok bool, desc string, segs []segment, total linExpr) {
-	var buf *ssa.MakeSlice
+// byteBuffers lists the make([]byte, n) buffers of fn.
+func byteBuffers(fn *ssa.Function) []*ssa.MakeSlice {
+	var out []*ssa.MakeSlice
 	for _, b := range fn.Blocks {
 		for _, in := range b.Instrs {
-			if ms, ok := in.(*ssa.MakeSlice); ok && strings.Contains(ms.Type().String(), "byte") || false {
-				if ms, ok := in.(*ssa.MakeSlice); ok {
-					buf = ms
-				}
+			if ms, ok := in.(*ssa.MakeSlice); ok && strings.Contains(ms.Type().String(), "byte") {
+				out = append(out, ms)
 			}
 		}
 	}
-	if buf == nil {
+	return out
+}
+
+// layoutCheck analyses fn for its (last) make([]byte, L) buffer and returns
+// whether the writes tile [0, L) exactly.
+func layoutCheck(p *core.Prog, fn *ssa.Function) (ok bool, desc string, segs []segment, total linExpr) {
+	bufs := byteBuffers(fn)
+	if len(bufs) == 0 {
 		return false, "no make([]byte, n) buffer", nil, linExpr{}
 	}
+	return layoutCheckBuf(p, fn, bufs[len(bufs)-1])
+}
+
+// layoutCheckBuf checks one buffer.
+func layoutCheckBuf(p *core.Prog, fn *ssa.Function, buf *ssa.MakeSlice) (ok bool, desc string, segs []segment, total linExpr) {
 	total = linEval(buf.Len, 0)
 	if !total.ok {
 		return false, "buffer length is not linear in input lengths", nil, total
